@@ -1,6 +1,7 @@
 package main
 
 import (
+	"go/types"
 	"fmt"
 	"strings"
 
@@ -27,7 +28,7 @@ func runC19(e *Engine, r *Report, tier string) {
 	r.Rule("R1", "relation 0x04 deleted on ack-success, ack-error and timeout; keyed by packet source channel + sequence", 4, "terminal callbacks of the middleware keeper")
 	r.Rule("R2", "refund converts only if the relation existed; holder = packet sender", 2, "")
 	r.Rule("R3", "inbound conversion guarded; keeper error -> error acknowledgement", 3, "")
-	r.Rule("R4", "intermediate sender = hash(source port/channel, data.Sender)", 2, "")
+	r.Rule("R4", "intermediate sender = hash(source port/channel, data.Sender), rendered injectively", 3, "")
 
 	// R5: the relation key is an injective encoding of (channel, sequence)
 	r.Rule("R5", "relation key encodes (channel, sequence) injectively", 1, "key constructors of erc20:04")
@@ -385,6 +386,56 @@ func runC19(e *Engine, r *Report, tier string) {
 			}
 		})
 		r.Check(okShape, "R4", "IntermediateSender shape", e.Pos(is.Pos()), "address = Hash(port+\"/\"+channel, sender)", "the derived sender no longer commits to port, channel and original sender")
+		// injectivity of the pre-image: the identifiers reach the hash as they are (formatting with a constant format and
+		// conversions only) — a call that can map two identifiers to one value, or whose error is thrown away, lets a remote
+		// party derive another account's address
+		badCall := ""
+		allCalls(is, func(c ssa.CallInstruction) {
+			n := callName(c)
+			switch n {
+			case "Hash", "Sprintf", "BytesToAddress", "Bytes", "String":
+				return
+			}
+			if _, isBuiltin := c.Common().Value.(*ssa.Builtin); isBuiltin {
+				return
+			}
+			v, ok := c.(ssa.Value)
+			if !ok {
+				return
+			}
+			// does the call's result reach the Hash arguments?
+			reaches := false
+			allCalls(is, func(h ssa.CallInstruction) {
+				if callName(h) != "Hash" {
+					return
+				}
+				for _, a := range h.Common().Args {
+					if e.rootsValue(a, v) {
+						reaches = true
+					}
+				}
+			})
+			if !reaches {
+				return
+			}
+			badCall = n
+			if tup, ok := v.Type().(*types.Tuple); ok {
+				for i := 0; i < tup.Len(); i++ {
+					if isErrorType(tup.At(i).Type()) {
+						used := false
+						for _, ref := range *v.Referrers() {
+							if ex, ok := ref.(*ssa.Extract); ok && ex.Index == i && ex.Referrers() != nil && len(*ex.Referrers()) > 0 {
+								used = true
+							}
+						}
+						if !used {
+							badCall = n + " (its error is discarded)"
+						}
+					}
+				}
+			}
+		})
+		r.Check(badCall == "", "R4", "IntermediateSender injective", e.Pos(is.Pos()), "port, channel and sender reach the hash unchanged (constant-format rendering only)", "an identifier reaches the hashed pre-image through "+badCall+", which can map different identifiers to the same value: packets from another channel or sender derive the same account")
 		for _, cs := range e.CallSites(is) {
 			if isAuxPkg(fnPkgPath(cs.Caller)) {
 				continue
